@@ -1,0 +1,28 @@
+//go:build verif
+
+// Package simhook contains scheduling-point hooks for deterministic simulation.
+//
+// With the "verif" build tag the hooks forward to functions installed by the
+// simulator; while none is installed they do nothing.
+package simhook
+
+// YieldFn is installed by the simulator.
+var YieldFn func(site, key string)
+
+// BuggifyFn is installed by the simulator.
+var BuggifyFn func(site string) bool
+
+// Yield marks a scheduling point.
+func Yield(site, key string) {
+	if f := YieldFn; f != nil {
+		f(site, key)
+	}
+}
+
+// Buggify returns true if the simulator wants the unusual-but-legal path at site.
+func Buggify(site string) bool {
+	if f := BuggifyFn; f != nil {
+		return f(site)
+	}
+	return false
+}
